@@ -434,7 +434,7 @@ def run(ctx):
                             yield ("dev", key, ("rekind", i, r))
                     else:
                         for j in range(len(JUNK)):
-                            if key[0] == "gen" or j % 4 == i % 4:
+                            if key[0] == "gen" or j % 8 == i % 8:  # repository examples: every 8th junk value per line, rotated by line
                                 yield ("dev", key, ("junk", i, j))
                 for h in range(len(HOSTILE)):
                     if key[0] == "gen" or h % 6 == i % 6:
@@ -453,7 +453,7 @@ def run(ctx):
                     for h in range(len(HOSTILE)):
                         for i2 in range(len(lines)):
                             if ":" in lines[i2] and lines[i2].split(":", 1)[0].upper() not in ("BEGIN", "END"):
-                                for j in range(0, len(JUNK), 3):
+                                for j in range(0, len(JUNK), 5):
                                     yield ("dev", ("gen", name), ("insert+junk", i, h, i2, j))
 
     def gen_soup():
